@@ -32,6 +32,9 @@ def run(ctx):
     b = vf.tlc("ReuseStep_MC", cfg="ReuseStep_bug_earlyidle", timeout=300)
     if b.ok or b.violated != "Inv_C06_CleanIdleStrict":
         raise vf.MachineryError("sensitivity run did not reject the connection that goes idle after a failed read")
+    b = vf.tlc("ReuseStep_MC", cfg="ReuseStep_bug_stray", timeout=300)
+    if b.ok or b.violated != "Inv_C06_NoStray":
+        raise vf.MachineryError("sensitivity run did not reject the dialled connection that is dropped when its caller has left")
     xportfam.reuse_replay(ctx, drv, "C06")
     ctx.assumptions += [
         "the scripted server sends at most one reply per query (the property's premise)",
